@@ -106,6 +106,11 @@ def extra_units():
     rt = copy.copy(c05.run_tagging_tasks)
     rt.prop = PROP
     out.append(rt)
+    # contig-per-process mode: the job list of tag_multiome_multi_processing (every contig with reads in exactly one job)
+    for u in c05.JOB_UNITS:
+        v = copy.copy(u)
+        v.prop = PROP
+        out.append(v)
     return out
 
 
